@@ -1,3 +1,4 @@
+import XPathV.Generated.ExtraFacts
 import XPathV.Model.Api
 import XPathV.Lemmas.Facts
 /-!
@@ -59,5 +60,10 @@ theorem verdict_is_local (d : Doc) (cfg : ECfg) (inp pred : Plan) (c : Ref) (out
         split at hsome
         · cases hsome; exact ⟨a, this, hyx⟩
         · cases hsome
+
+/-- T0: the builder does not let the "top-most matches only" rewrite reach a step that is then
+filtered (the flags passed to a filter's input mask out SmartDesc), and the model follows the source -/
+theorem smartdesc_stops_at_filters : Generated.filterInputFlagsSrc = "(flags|flagsEnum.Filter)&^flagsEnum.SmartDesc" ∧
+    Model.smartDescThroughFilterFromSource = false := ⟨rfl, by decide +kernel⟩
 
 end XPathV.Theorems.C02
